@@ -11,6 +11,7 @@ import (
 	"io"
 	"os"
 	"os/exec"
+	"runtime"
 	"strings"
 	"sync"
 )
@@ -38,6 +39,10 @@ func observeScript(src string, withDump bool) string {
 		for i := 0; i < 3; i++ {
 			o := m.exec(nil)
 			fmt.Fprintf(&sb, "|run%d:%s:%s", i, o.class(), describeCalls(o.Calls))
+			if o.Err != nil {
+				// the text of an error is output like any other: the same every time
+				fmt.Fprintf(&sb, ":%s", o.Err.Error())
+			}
 		}
 		// Prepare again on the same evaluator: the program must be the same
 		if err := m.E.Prepare(); err == nil {
@@ -121,12 +126,78 @@ func detScripts(tier string) []string {
 		`return sort(["b", "B", "a", "A", "b"], true);`,
 		`return [sort([1, "1", 1.0]), reverse(["x", "X"], true)];`,
 		`s = {}; foreach i in 1..5 { s = {"n": i, "prev": s}; } return string(s);`,
+		// run-time errors which mention the values involved: the text is the same every time
+		`return {[1, 2]: 1};`, `h = {"a": 1}; return h[[1, [2]]];`, `h = {"a": 1}; return h[{"k": [1]}];`, `return {{"a": 1}: 2};`, `return {true: 1};`, `return {null: 1};`,
+		`return [1, 2] + {"a": 1};`, `return [1] < [2];`, `return {"a": [1]} ~= /a/;`, `return -[1, 2];`, `return [1, 2][[0]];`, `return "abc"[{"a": 1}];`, `foreach x in {"a": [1]} { return x + 1; }`,
+		`function f(a) { return a; } return f([1], {"b": 2});`, `return nosuch([1, 2], {"a": 1});`, `return len([1], [2]);`, `return sort({"a": 1});`, `return join({"a": 1}, [1]);`,
+		`x = [1, {"a": [2]}]; x++; return x;`, `return sprintf("%d %s", [1], {"a": 1});`, `return int([1, 2]) + float({"a": 1});`, `switch ( [1] ) { case {"a": 1} { return 1; } } return [2] in 3;`,
 	)
 	return out
 }
 
+// The same script, object and variables give the same result whatever the evaluator did before and wherever the
+// object lives: a used evaluator against a fresh one, on containers changed in place, re-used, and freshly
+// allocated between collections (so that addresses are handed out again).
+type detRecord struct {
+	Name  string
+	Count int
+	Tags  []string
+}
+
+func historyIndependence(c *Check) {
+	const src = `return string(Name) + "|" + string(Count) + "|" + string(len(Tags));`
+	fresh := func(obj interface{}, opt bool) string {
+		m, err := newMachine(src, nil, nil, opt, nil)
+		if err != nil {
+			return "prepare: " + err.Error()
+		}
+		return m.exec(obj).class()
+	}
+	for _, opt := range []bool{true, false} {
+		used, err := newMachine(src, nil, nil, opt, nil)
+		if err != nil {
+			c.fail("C19 history script rejected: " + err.Error())
+			return
+		}
+		compare := func(what string, obj interface{}) {
+			got := used.exec(obj).class()
+			want := fresh(obj, opt)
+			c.count(fmt.Sprintf("history|%v|%s", opt, what), true)
+			if got != want {
+				c.disagree(&Disagreement{Kind: "depends-on-history", Script: src, Mode: map[bool]string{true: "opt", false: "noopt"}[opt],
+					Expected: want + " (what a freshly prepared evaluator gives for this object)", Got: got, Detail: map[string]interface{}{"where": what}})
+			}
+		}
+		// one map, changed in place between runs
+		doc := map[string]interface{}{"Name": "a", "Count": 1, "Tags": []interface{}{"x"}}
+		for i := 0; i < 4; i++ {
+			doc["Name"] = fmt.Sprintf("n%d", i)
+			doc["Count"] = i * 7
+			doc["Tags"] = append(doc["Tags"].([]interface{}), i)
+			compare(fmt.Sprintf("map changed in place, step %d", i), doc)
+		}
+		// one struct behind a pointer, overwritten between runs (decoding a stream into one record)
+		rec := &detRecord{}
+		for i := 0; i < 4; i++ {
+			*rec = detRecord{Name: fmt.Sprintf("r%d", i), Count: 100 + i, Tags: make([]string, i)}
+			compare(fmt.Sprintf("record overwritten behind a pointer, step %d", i), rec)
+		}
+		// fresh objects, with collections in between: an address may be handed out again
+		for i := 0; i < 300; i++ {
+			obj := map[string]interface{}{"Name": fmt.Sprintf("g%d", i), "Count": i, "Tags": []interface{}{}}
+			compare("a fresh map after a collection", obj)
+			ptr := &detRecord{Name: fmt.Sprintf("p%d", i), Count: -i}
+			compare("a fresh record after a collection", ptr)
+			obj, ptr = nil, nil
+			if i%3 == 0 {
+				runtime.GC()
+			}
+		}
+	}
+}
+
 func checkC19(c *Check) {
-	c.rule = "MC_Det: hash literals of 2-5 keys drawn from a pool of 8 keys in which printed forms coincide (1 / 1.0 / \"1\", 1.5 / \"1.5\") incl. repeated keys, observed through string(), keys(), len, foreach over keys and values (twice), index by four keys; nested hashes inside hashes and arrays; plus programs with 20-300 constants and four functions, repeated keys, sort ties; each script is prepared in both modes and run three times on one evaluator, prepared again on the same evaluator, dumped; where EFSemantics defines the outcome it is prescribed, everywhere the whole observation (compiled program bytes and constants, results, host calls, Dump output) must be identical across 6 preparations in the parent process and across 4 (thorough: 12) separate worker processes (each with its own map-iteration seed); distinct = distinct script"
+	c.rule = "MC_Det: hash literals of 2-5 keys drawn from a pool of 8 keys in which printed forms coincide (1 / 1.0 / \"1\", 1.5 / \"1.5\") incl. repeated keys, observed through string(), keys(), len, foreach over keys and values (twice), index by four keys; nested hashes inside hashes and arrays; plus programs with 20-300 constants and four functions, repeated keys, sort ties; each script is prepared in both modes and run three times on one evaluator, prepared again on the same evaluator, dumped; where EFSemantics defines the outcome it is prescribed, everywhere the whole observation (compiled program bytes and constants, results, host calls, Dump output) must be identical across 6 preparations in the parent process and across 4 (thorough: 12) separate worker processes (each with its own map-iteration seed); 22 scripts failing with errors that mention containers: the error text is part of the observation; a used evaluator against a fresh one on a map changed in place, a record overwritten behind one pointer, and 600 fresh objects with collections in between (addresses handed out again): same inputs, same result; distinct = distinct script"
 	c.assumptions = []string{"now()/time()/getenv() are not used", "order among hash keys with equal printed form is unspecified but must be fixed"}
 	var mu sync.Mutex
 	seen := map[string]bool{}
@@ -142,6 +213,7 @@ func checkC19(c *Check) {
 		mu.Unlock()
 	})
 	scripts = append(scripts, detScripts(c.Tier)...)
+	historyIndependence(c)
 	// in-process: repeated preparations agree
 	ref := make([]string, len(scripts))
 	var wg sync.WaitGroup
